@@ -225,7 +225,11 @@ func (d *Demuxer) parse() error {
 	if webpTag != FourCCWEBP {
 		return ErrInvalidRIFF
 	}
-	// fileSize is the size after the first 8 bytes (RIFF + size field).
+	// fileSize is the size after the first 8 bytes (RIFF + size field), so it
+	// must at least cover the "WEBP" tag that was just read.
+	if fileSize < container.TagSize {
+		return ErrInvalidRIFF
+	}
 	// Use uint64 arithmetic to prevent int overflow on 32-bit platforms.
 	totalSize64 := uint64(fileSize) + 8
 	if totalSize64 > uint64(len(d.data)) {
